@@ -147,31 +147,42 @@ def tomo_oracle(args):
                           max_bond_dim=16, get_state=True)
     with common.time_limit(900):
         pt = tomography.run(H, par, timesteps=list(segs), num_trajectories=1)
-    # held-out preparation and interventions
-    psi = rng.normal(size=2) + 1j * rng.normal(size=2)
-    psi /= np.linalg.norm(psi)
-    mix = float(rng.uniform(0, 0.4))
-    rho_prep = (1 - mix) * np.outer(psi, psi.conj()) + mix * np.eye(2) / 2
-    maps = [kraus_map(str(rng.choice(["unitary", "damping", "dephasing"])), rng) for _ in range(len(segs) - 1)]
-    inter = [lambda x, r=rho_prep: np.trace(x) * r] + [lambda x, ks=ks: sum(k @ x @ k.conj().T for k in ks) for ks in maps]
-    pred = pt.predict_final_state(inter)
-    # dense reference
+    # held-out preparations and interventions: SEVERAL predictions from the same process tensor (a prediction must not depend on
+    # the predictions made before), with freshly built closures each time and with one function object whose parameters change
     env = np.zeros(2 ** (L - 1), dtype=complex)
     env[0] = 1.0
-    rho = np.kron(rho_prep, np.outer(env, env.conj()))
-    for s, t in enumerate(segs):
-        # the simulators live on the time grid: a duration is represented by round(t/dt) steps (C15); durations that are
-        # nominal multiples of dt (0.15 = 3 * 0.05 although 0.15/0.05 = 2.9999999999999996) must get exactly that many
-        u = dense.evolve(hd, np.eye(2**L, dtype=complex), round(t / dt) * dt)
-        rho = u @ rho @ u.conj().T
-        if s < len(maps):
-            rho = sum(np.kron(k, np.eye(2 ** (L - 1))) @ rho @ np.kron(k, np.eye(2 ** (L - 1))).conj().T for k in maps[s])
-    red = rho.reshape(2, 2 ** (L - 1), 2, 2 ** (L - 1)).trace(axis1=1, axis2=3)
-    err = float(np.max(np.abs(pred - red)))
-    if err > 2e-4:
-        return (f"predict_final_state differs from the partial trace of the exact evolution by {err:.3e} (L={L}, segments={segs}, "
-                f"solver={solver}, held-out preparation with mixing {mix:.2f})")
-    return None
+    state = {}
+
+    def prep_fn(x):
+        return np.trace(x) * state["rho"]
+
+    worst = None
+    for rep in range(args.get("predictions", 4)):
+        psi = rng.normal(size=2) + 1j * rng.normal(size=2)
+        psi /= np.linalg.norm(psi)
+        mix = float(rng.uniform(0, 0.4))
+        rho_prep = (1 - mix) * np.outer(psi, psi.conj()) + mix * np.eye(2) / 2
+        maps = [kraus_map(str(rng.choice(["unitary", "damping", "dephasing"])), rng) for _ in range(len(segs) - 1)]
+        state["rho"] = rho_prep
+        first = prep_fn if rep % 2 else (lambda x, r=rho_prep: np.trace(x) * r)
+        inter = [first] + [lambda x, ks=ks: sum(k @ x @ k.conj().T for k in ks) for ks in maps]
+        pred = pt.predict_final_state(inter)
+        del inter, first
+        # dense reference
+        rho = np.kron(rho_prep, np.outer(env, env.conj()))
+        for s, t in enumerate(segs):
+            # the simulators live on the time grid: a duration is represented by round(t/dt) steps (C15); durations that are
+            # nominal multiples of dt (0.15 = 3 * 0.05 although 0.15/0.05 = 2.9999999999999996) must get exactly that many
+            u = dense.evolve(hd, np.eye(2**L, dtype=complex), round(t / dt) * dt)
+            rho = u @ rho @ u.conj().T
+            if s < len(maps):
+                rho = sum(np.kron(k, np.eye(2 ** (L - 1))) @ rho @ np.kron(k, np.eye(2 ** (L - 1))).conj().T for k in maps[s])
+        red = rho.reshape(2, 2 ** (L - 1), 2, 2 ** (L - 1)).trace(axis1=1, axis2=3)
+        err = float(np.max(np.abs(pred - red)))
+        if err > 2e-4 and worst is None:
+            worst = (f"predict_final_state differs from the partial trace of the exact evolution by {err:.3e} (L={L}, segments={segs}, "
+                     f"solver={solver}, prediction number {rep + 1} from the same process tensor, held-out preparation with mixing {mix:.2f})")
+    return worst
 
 
 def search(ctx):
